@@ -701,3 +701,150 @@ func isParamIdx(v ssa.Value, idx int) bool {
 	p, ok := v.(*ssa.Parameter)
 	return ok && paramIndex(p) == idx
 }
+
+// ruleRetryHelloPrefix (C04 / C13, DTLS 1.3): the ClientHello that answers a HelloRetryRequest is
+// accepted only if everything in front of its extensions - version, random, session id, the
+// legacy cookie field, cipher suites, compression methods - is byte-for-byte what the first
+// ClientHello had: one byte comparison of body[:extensionOffset] of both snapshots.
+func ruleRetryHelloPrefix(c *Ctx, r *Report) {
+	const rule = "retry-hello-prefix-equal"
+	fn := c.need(r, rule, "internal/negotiation.validateRetryClientHello")
+	if fn == nil {
+		return
+	}
+	r.Sites += len(fn.Blocks)
+	okRet := successReturn(fn)
+	if okRet == nil {
+		r.Unk(rule, short(fn), c.pos(fn.Pos()), "no unique nil return")
+		return
+	}
+	const tSnap = "internal/negotiation.ClientHelloSnapshot"
+	// prefixOf(v) = index of the snapshot parameter p when v is p.body[:p.extensionOffset]
+	prefixOf := func(v ssa.Value) int {
+		sl, ok := v.(*ssa.Slice)
+		if !ok || sl.Low != nil || sl.High == nil {
+			return -1
+		}
+		_, f1, b1, ok1 := fieldLoad(sl.X)
+		_, f2, b2, ok2 := fieldLoad(stripConv(sl.High))
+		if !ok1 || !ok2 || f1 != "body" || f2 != "extensionOffset" {
+			return -1
+		}
+		p1 := snapshotParam(b1, tSnap)
+		p2 := snapshotParam(b2, tSnap)
+		if p1 < 0 || p1 != p2 {
+			return -1
+		}
+		return p1
+	}
+	good := false
+	for _, e := range findCalls(fn, nameIs("bytes.Equal", "crypto/subtle.ConstantTimeCompare", "crypto/hmac.Equal")) {
+		a, b := prefixOf(e.Call.Args[0]), prefixOf(e.Call.Args[1])
+		if a >= 0 && b >= 0 && a != b {
+			if g, _ := guardedBy(e, e, okRet); g {
+				good = true
+			}
+		}
+	}
+	r.Check(good, rule, short(fn), c.pos(fn.Pos()), "body[:extensionOffset] of both ClientHellos compared as bytes; success only if equal", "the second ClientHello is accepted without a byte comparison of everything in front of the extensions with the first ClientHello: a field there (for example legacy_cookie) may differ between the two hellos the server acts on")
+}
+
+// snapshotParam: base is (a spill of) a parameter of the named struct type; returns its index.
+func snapshotParam(base ssa.Value, typ string) int {
+	b := base
+	if u, ok := b.(*ssa.UnOp); ok {
+		b = u.X
+	}
+	if p, ok := b.(*ssa.Parameter); ok && namedOf(p.Type()) == typ {
+		return paramIndex(p)
+	}
+	if al, ok := b.(*ssa.Alloc); ok {
+		for _, ref := range *al.Referrers() {
+			if st, isSt := ref.(*ssa.Store); isSt && st.Addr == ssa.Value(al) {
+				if p, isP := st.Val.(*ssa.Parameter); isP && namedOf(p.Type()) == typ {
+					return paramIndex(p)
+				}
+			}
+		}
+	}
+	return -1
+}
+
+// ruleSessionAdapterPreservesMiss (C13 / C14): the handshake decides "the store knows this
+// session" by a non-nil ID coming back from the configured store. The adapter between the public
+// SessionStore and the handshake configuration must hand the store's ID and secret through as
+// they are (a nil-preserving clone is fine): rebuilding them (append to a fresh slice, make+copy)
+// turns a miss into an empty non-nil ID, and every offered session ID then resumes with an empty
+// master secret and without the cookie exchange.
+func ruleSessionAdapterPreservesMiss(c *Ctx, r *Report) {
+	const rule = "session-adapter"
+	n := 0
+	for _, st := range c.StoresTo(tCfg, "GetSession") {
+		mc, ok := st.Val.(*ssa.MakeClosure)
+		if !ok {
+			if k, isC := st.Val.(*ssa.Const); isC && k.Value == nil {
+				continue
+			}
+			r.Unk(rule, short(st.Fn), c.ipos(st.Instr), "GetSession is not set to a function literal")
+			continue
+		}
+		lit := mc.Fn.(*ssa.Function)
+		r.Sites += len(lit.Blocks)
+		for _, b := range lit.Blocks {
+			ret, isRet := b.Instrs[len(b.Instrs)-1].(*ssa.Return)
+			if !isRet || len(ret.Results) != 3 || b == lit.Recover {
+				continue
+			}
+			res := retResults(ret)
+			for i, f := range []string{"ID", "Secret"} {
+				n++
+				ls := c.Origins(res[i], 0)
+				good := allLeaves(ls, func(v ssa.Value) bool {
+					return isFieldLoad(v, "dtls.Session", f) || isNilConst(v)
+				})
+				r.Check(good, rule, fmt.Sprintf("%s:%s", short(lit), f), c.ipos(ret), "the store's "+f+" is handed through unchanged (nil stays nil)", "the session "+f+" returned to the handshake is rebuilt instead of handed through ("+c.describeAll(ls)+"): a store miss (nil) becomes an empty non-nil value, so an unknown session ID is treated as known")
+			}
+		}
+	}
+	r.Floor(rule, n, 2)
+}
+
+// ruleSessionWrittenOnceByFullHandshake (C14): a session enters a store only at the end of a full
+// handshake (server: the parser that verified the client's Finished of a full handshake; client:
+// the parser of the server's final flight). The abbreviated-handshake parsers never write the
+// store: a session that was deleted because a fatal alert was sent on it must not be put back by
+// another connection that happened to be resuming it at the time.
+func ruleSessionWrittenOnceByFullHandshake(c *Ctx, r *Report) {
+	const rule = "session-written-by-full-handshake"
+	// functions that write the store (directly), and everything that reaches them statically
+	writers := map[*ssa.Function]bool{}
+	for _, fn := range c.Fns {
+		for _, call := range dynCallsOfField(fn, tCfg, "SetSession") {
+			_ = call
+			writers[fn] = true
+		}
+	}
+	if len(writers) == 0 {
+		r.Unk(rule, "writers", "", "no call through HandshakeConfig.SetSession found")
+		return
+	}
+	reaches := func(fn *ssa.Function) bool {
+		for _, u := range c.unitFuncs(fn) {
+			if writers[u] {
+				return true
+			}
+		}
+		return false
+	}
+	n := 0
+	for _, name := range []string{pkgF12 + ".flight4bParse", pkgF12 + ".handleResumption", pkgF12 + ".flight0Parse", pkgF12 + ".handleHelloResume", pkgF12 + ".flight4bGenerate", pkgF12 + ".flight5bGenerate", pkgF12 + ".flight5bParse"} {
+		fn := c.Fn(name)
+		if fn == nil {
+			continue
+		}
+		n++
+		r.Sites += len(fn.Blocks)
+		r.Check(!reaches(fn), rule, short(fn), c.pos(fn.Pos()), "the abbreviated-handshake path does not write the session store", "an abbreviated-handshake function writes the session store: a session deleted after a fatal alert can be re-inserted by a concurrent resumption and is offered again")
+	}
+	r.Floor(rule, n, 3)
+}
